@@ -26,8 +26,8 @@ Theorem inplace_writes_behind_reads : forall (esc : list N -> option (list N * n
   (forall l o n, esc l = Some (o, n) -> 1 <= n /\ n <= length l /\ length o <= n) ->
   forall fuel b0 b src dst out rest,
   dst <= src -> skipn src b = skipn src b0 -> length b = length b0 ->
-  dec esc fuel (skipn src b0) = Some (out, rest) ->
-  exists b' src', inplace esc fuel b src dst = Done (dst + length out) b' src' /\
+  Inplace.dec esc fuel (skipn src b0) = Some (out, rest) ->
+  exists b' src', Inplace.inplace esc fuel b src dst = Inplace.Done (dst + length out) b' src' /\
      firstn (dst + length out) b' = firstn dst b ++ out /\
      skipn src' b' = rest /\ skipn src' b' = skipn src' b0 /\
      dst + length out < src' /\ length b' = length b0.
